@@ -10,6 +10,8 @@
 #include <set>
 #include <stdexcept>
 #include <type_traits>
+#include <sys/wait.h>
+#include <fcntl.h>
 
 static_assert(CHAR_MIN < 0, "model assumes plain char is signed");
 static_assert(__BYTE_ORDER__ == __ORDER_LITTLE_ENDIAN__, "model assumes little-endian byte lanes");
@@ -682,18 +684,76 @@ static std::vector<std::string> split_plain(const std::string &line)
     return w;
 }
 
+// Each battery line runs in a forked child (which is just as much "before main()" as its parent): a
+// crash or sanitizer abort of a routine that is not usable yet becomes the result of THAT line instead of
+// killing the harness before it has read its first operation.
+static out run_isolated(const char *line)
+{
+    out o;
+    int fd[2];
+    if (pipe(fd) != 0) { o.result = "CRASH pre-main"; o.fail("harness error: pipe"); return o; }
+    pid_t pid = fork();
+    if (pid == 0)
+    {
+        close(fd[0]);
+        alarm(20);
+        out c;
+        run_op(split_plain(line), line, c);
+        std::string msg = c.result + "\t" + c.oracle + "\t" + c.tags;
+        size_t done = 0;
+        while (done < msg.size())
+        {
+            ssize_t k = write(fd[1], msg.data() + done, msg.size() - done);
+            if (k <= 0) break;
+            done += (size_t)k;
+        }
+        _exit(0);
+    }
+    close(fd[1]);
+    std::string msg;
+    char tmp[4096];
+    ssize_t k;
+    while ((k = read(fd[0], tmp, sizeof tmp)) > 0) msg.append(tmp, (size_t)k);
+    close(fd[0]);
+    int status = 0;
+    if (pid > 0) waitpid(pid, &status, 0);
+    size_t t1 = msg.find('\t'), t2 = t1 == std::string::npos ? t1 : msg.find('\t', t1 + 1);
+    if (pid > 0 && WIFEXITED(status) && WEXITSTATUS(status) == 0 && t2 != std::string::npos)
+    {
+        o.result = msg.substr(0, t1);
+        o.oracle = msg.substr(t1 + 1, t2 - t1 - 1);
+        o.tags = msg.substr(t2 + 1);
+    }
+    else
+    {
+        o.result = "CRASH pre-main";
+        o.fail(std::string("the call crashed (") + (WIFSIGNALED(status) ? "signal " + std::to_string(WTERMSIG(status)) : "sanitizer abort, exit " + std::to_string(WEXITSTATUS(status))) + ")");
+    }
+    return o;
+}
+
+// `gen` mode executes no igris code: skip the battery there
+static bool cmdline_is_gen()
+{
+    char b[512];
+    int f = open("/proc/self/cmdline", O_RDONLY);
+    if (f < 0) return false;
+    ssize_t k = read(f, b, sizeof b - 1);
+    close(f);
+    if (k <= 0) return false;
+    b[k] = 0;
+    size_t a0 = strlen(b);
+    return a0 + 1 < (size_t)k && !strcmp(b + a0 + 1, "gen");
+}
+
 struct premain_battery
 {
     std::vector<out> res;
     bool before_main, before_default_init;
     premain_battery() : before_main(!main_entered), before_default_init(default_priority_marker == 0)
     {
-        for (size_t k = 0; k < PREMAIN_N; k++)
-        {
-            out o;
-            run_op(split_plain(PREMAIN_BATTERY[k]), PREMAIN_BATTERY[k], o);
-            res.push_back(o);
-        }
+        if (cmdline_is_gen()) return;
+        for (size_t k = 0; k < PREMAIN_N; k++) res.push_back(run_isolated(PREMAIN_BATTERY[k]));
     }
 };
 __attribute__((init_priority(101))) static premain_battery premain_results;
@@ -708,6 +768,7 @@ static void run_premain(const std::vector<std::string> &w, out &o)
         o.result = "bad-op";
         return;
     }
+    if (premain_results.res.size() != PREMAIN_N) { o.result = "bad-op"; return; }
     const out &pre = premain_results.res[k];
     o.result = pre.result;
     o.tags = pre.tags;
